@@ -16,6 +16,7 @@ struct GenCfg {
 
 ustr gen_string(Rng &r, const GenCfg &c);
 // a string that cif_value_set_quoted(NOT_QUOTED) must accept and that is not "?" or "."
+bool is_reserved_word(const ustr &s);   // CIF reserved words, case-insensitive: data_* save_* loop_ stop_ global_
 ustr gen_bare_string(Rng &r, const GenCfg &c);
 ustr gen_number_text(Rng &r);
 MValue gen_value(Rng &r, const GenCfg &c, int depth = 0);
